@@ -22,6 +22,7 @@ import (
 	"sort"
 	"strings"
 	"sync"
+	"sync/atomic"
 	"testing"
 	realtime "time"
 
@@ -128,15 +129,40 @@ type c17Coll struct {
 	// relay unit (T3), wired as production does: LocalSuperior <- CollectorPool.addCollectorWithConn(conn) =net.Pipe=
 	// PersistentRemoteSuperior (dial option = the pipe end) <- LocalCollector
 	relay    bool
-	rcID     uuid.UUID
+	mu       sync.Mutex // the dial callback runs on the far side's goroutine
+	rcID     uuid.UUID  // id under which the superior knows the relay now
+	oldIDs   []uuid.UUID
 	rc       *RemoteCollector
 	pool     *CollectorPool
 	prs      *PersistentRemoteSuperior
 	prsStop  context.CancelFunc
 	pipeA    net.Conn
+	pipes    []net.Conn
 	connA    *connection.Conn
-	connB    *connection.Conn
 	stopKind string
+	linkDown bool // the connection was dropped and has not been re-established
+	poolDown bool
+	dials    int // dial attempts by the far side (the first one included)
+	redials  int // successful re-connections
+}
+
+// down: the unit cannot be expected to deliver right now
+func (c *c17Coll) down() bool { return c.stopped || c.linkDown }
+
+// knows: id is one of the ids this unit has had at the superior
+func (c *c17Coll) knows(id uuid.UUID) bool {
+	if !c.relay {
+		return c.lc.ID() == id
+	}
+	if c.rcID == id {
+		return true
+	}
+	for _, o := range c.oldIDs {
+		if o == id {
+			return true
+		}
+	}
+	return false
 }
 
 // relayState: how the relay was stopped and what is queued on the link (part of the canonical state).
@@ -150,12 +176,13 @@ func (c *c17Coll) relayState() string {
 		n = len(c.pool.collectors)
 		c.pool.l.RUnlock()
 	}
-	out := fmt.Sprintf("how=%s pool=%d", c.stopKind, n)
+	out := fmt.Sprintf("how=%s pool=%d down=%v dials=%d", c.stopKind, n, c.linkDown, c.dials)
 	if c.rc != nil {
 		out += fmt.Sprintf(" A=%s w%d r%d", qlen(c.connA), len(c.rc.writer.(*RemoteRequestWriter).sender.messageCh), len(c.rc.reader.(*RemoteReportReader).receiver.messageCh))
 	}
 	rs := c.prs.RemoteSuperior
-	out += fmt.Sprintf(" B=%s r%d w%d", qlen(c.connB), len(rs.reader.(*RemoteRequestReader).receiver.messageCh), len(rs.writer.(*RemoteReportWriter).sender.messageCh))
+	rd := rs.reader.(*RemoteRequestReader).receiver
+	out += fmt.Sprintf(" B=%s r%d w%d", qlen(rd.conn), len(rd.messageCh), len(rs.writer.(*RemoteReportWriter).sender.messageCh))
 	return out
 }
 
@@ -191,35 +218,77 @@ func c17TaskID(n int) uuid.UUID {
 // (RemoteCollector and RemoteSuperior joined by connection.Conn over net.Pipe, keepalive off).
 var c17Topology = "T1"
 
+var c17Reconnections, c17RefusedDials int64 // vacuity counters for T3r
+
 // c17ParentAge: how many slots the parent block of a broadcast task lies behind the current slot (1 = fresh tip;
 // a stalled chain makes it large, and then the first tick produces that many reports in one burst).
 var c17ParentAge = uint64(1)
 
-func (w *c17World) connectRelay() {
-	k := &c17Keeper{idx: len(w.colls)}
-	a, b := net.Pipe()
-	// near side: what CollectorPool.listenRoutine does with an accepted connection (the listener itself is not driven)
-	pctx, pcancel := context.WithCancel(context.Background())
-	pool := &CollectorPool{ctx: pctx, ctxCanceller: pcancel, superior: w.ls, opts: defaultCollectorPoolOptions(),
-		collectors: make(map[uuid.UUID]Collector), cancellers: make(map[uuid.UUID]context.CancelFunc)}
-	connA, stopA, err := connection.NewConn(connection.WithNetConn(a), connection.WithContext(pctx), connection.KeepaliveInterval(0), connection.KeepaliveTimeout(0))
+// attach: what CollectorPool.listenRoutine does with an accepted connection (the listener itself is not driven)
+func (c *c17Coll) attach(a net.Conn) {
+	connA, stopA, err := connection.NewConn(connection.WithNetConn(a), connection.WithContext(c.pool.ctx), connection.KeepaliveInterval(0), connection.KeepaliveTimeout(0))
 	if err != nil {
 		vk.Fatalf("connA: %v", err)
 	}
-	pool.addCollectorWithConn(connA, stopA)
-	var rcID uuid.UUID
-	var rc *RemoteCollector
-	for id, c := range pool.collectors {
-		rcID, rc = id, c.(*RemoteCollector)
+	before := map[uuid.UUID]bool{}
+	c.pool.l.RLock()
+	for id := range c.pool.collectors {
+		before[id] = true
 	}
-	// far side: the miner node's PersistentRemoteSuperior; its first dial yields the other pipe end
-	prs, prsStop, err := NewPersistentRemoteSuperior(context.Background(), connection.WithNetConn(b), connection.KeepaliveTimeout(0))
+	c.pool.l.RUnlock()
+	c.pool.addCollectorWithConn(connA, stopA)
+	c.pool.l.RLock()
+	for id, col := range c.pool.collectors {
+		if !before[id] {
+			if c.rc != nil {
+				c.oldIDs = append(c.oldIDs, c.rcID)
+			}
+			c.rcID, c.rc = id, col.(*RemoteCollector)
+		}
+	}
+	c.pool.l.RUnlock()
+	c.pipeA, c.connA = a, connA
+	c.pipes = append(c.pipes, a)
+}
+
+// dial: what the far side's (re)dial yields. The first dial and, in topology T3r, every later one succeeds with a
+// fresh pipe whose near end is handed to the pool as an accepted connection; with the pool stopped, dials fail.
+func (c *c17Coll) dial() (net.Conn, error) {
+	c.mu.Lock()
+	defer c.mu.Unlock()
+	c.dials++
+	if c.poolDown {
+		atomic.AddInt64(&c17RefusedDials, 1)
+		return nil, errors.New("connection refused")
+	}
+	if c.dials > 1 && c17Topology != "T3r" {
+		return nil, errors.New("unreachable")
+	}
+	a, b := net.Pipe()
+	c.attach(a)
+	c.pipes = append(c.pipes, b)
+	if c.dials > 1 {
+		c.redials++
+		c.linkDown = false
+		atomic.AddInt64(&c17Reconnections, 1)
+	}
+	return b, nil
+}
+
+func (w *c17World) connectRelay() {
+	k := &c17Keeper{idx: len(w.colls)}
+	pctx, pcancel := context.WithCancel(context.Background())
+	c := &c17Coll{keeper: k, relay: true}
+	c.pool = &CollectorPool{ctx: pctx, ctxCanceller: pcancel, superior: w.ls, opts: defaultCollectorPoolOptions(),
+		collectors: make(map[uuid.UUID]Collector), cancellers: make(map[uuid.UUID]context.CancelFunc)}
+	// far side: the miner node's PersistentRemoteSuperior; what its dials yield is decided by c.dial
+	prs, prsStop, err := NewPersistentRemoteSuperior(context.Background(), connection.VerifDial(c.dial), connection.KeepaliveTimeout(0))
 	if err != nil {
 		vk.Fatalf("prs: %v", err)
 	}
-	lc, cancel := NewLocalCollector(context.Background(), prs, k)
-	w.colls = append(w.colls, &c17Coll{lc: lc, cancel: cancel, keeper: k, relay: true, rcID: rcID, rc: rc, pool: pool, prs: prs, prsStop: prsStop, pipeA: a,
-		connA: connA, connB: prs.RemoteSuperior.reader.(*RemoteRequestReader).receiver.conn})
+	c.prs, c.prsStop = prs, prsStop
+	c.lc, c.cancel = NewLocalCollector(context.Background(), prs, k)
+	w.colls = append(w.colls, c)
 }
 
 func c17New() *c17World {
@@ -228,7 +297,7 @@ func c17New() *c17World {
 	})
 	vtime.Reset(realtime.Unix(c17NowUnix, 0))
 	w := &c17World{s: qsched.New(), ls: NewLocalSuperior()}
-	if c17Topology == "T3" {
+	if strings.HasPrefix(c17Topology, "T3") {
 		w.connectRelay() // collector 0, so that the targeted proof task travels through the relay
 		w.connect()
 	} else {
@@ -269,7 +338,12 @@ func (w *c17World) close() {
 		wg.Add(1)
 		go func() {
 			if c.relay {
-				c.pipeA.Close()
+				c.mu.Lock()
+				c.poolDown = true
+				for _, p := range c.pipes {
+					p.Close()
+				}
+				c.mu.Unlock()
 				go c.pool.waitStop()
 				go c.prsStop()
 			}
@@ -317,6 +391,10 @@ func (w *c17World) inFlight() int {
 	return n
 }
 
+// the collectors' slot tickers (0.75 s) are what "tick" fires; the far side's retry timer (30 s) is what "redial" fires
+func c17Short(d vtime.Duration) bool { return d < 10*vtime.Second }
+func c17Long(d vtime.Duration) bool  { return d >= 10*vtime.Second }
+
 const (
 	c17MaxReads = 3 // explicit single reads by a waiter before the final drain
 	c17MaxTasks = 2
@@ -354,7 +432,12 @@ func (w *c17World) enabled(budget, maxTicks int) []c17Action {
 			if !c.stopped {
 				out = append(out, c17Action{"stopc", i})
 				if c.relay {
-					out = append(out, c17Action{"droplink", i}, c17Action{"stopfar", i}, c17Action{"stoppool", i})
+					out = append(out, c17Action{"stopfar", i}, c17Action{"stoppool", i})
+					if !c.linkDown {
+						out = append(out, c17Action{"droplink", i})
+					} else if c17Topology == "T3r" && vtime.PendingWhere(c17Long) > 0 {
+						out = append(out, c17Action{"redial", i})
+					}
 				}
 			}
 		}
@@ -364,7 +447,7 @@ func (w *c17World) enabled(budget, maxTicks int) []c17Action {
 			out = append(out, c17Action{"read", i})
 		}
 	}
-	if w.ticks < maxTicks && len(vtime.Pending()) > 0 {
+	if w.ticks < maxTicks && vtime.PendingWhere(c17Short) > 0 {
 		out = append(out, c17Action{"tick", 0})
 	}
 	return out
@@ -381,7 +464,7 @@ func (w *c17World) do(a c17Action) []qsched.GoroutineInfo {
 		if a.Kind == "addQ" {
 			req = &protocol.RequestQualities{TaskID: t.id, Challenge: t.challenge, ParentTarget: big.NewInt(1), ParentSlot: uint64(c17NowUnix)/pocSlot - c17ParentAge, Height: 10}
 			for i, c := range w.colls {
-				if !c.stopped {
+				if !c.down() {
 					t.expected[i] = true
 				}
 			}
@@ -390,7 +473,7 @@ func (w *c17World) do(a c17Action) []qsched.GoroutineInfo {
 			t.target = a.N
 			cid = w.colls[a.N].ID()
 			req = &protocol.RequestProof{TaskID: t.id, Height: 10, SpaceID: "space-0", Challenge: t.challenge, Index: 0}
-			if !w.colls[a.N].stopped {
+			if !w.colls[a.N].down() {
 				t.expected[a.N] = true
 			}
 		}
@@ -430,9 +513,17 @@ func (w *c17World) do(a c17Action) []qsched.GoroutineInfo {
 		w.nops++
 	case "droplink", "stopfar", "stoppool", "stopc":
 		c := w.colls[a.N]
-		c.stopped = true
 		kind := a.Kind
+		c.mu.Lock()
+		if kind == "droplink" && c17Topology == "T3r" {
+			c.linkDown = true // the far side will redial
+		} else {
+			c.stopped = true
+			c.linkDown = c.linkDown || kind == "droplink"
+		}
+		c.poolDown = c.poolDown || kind == "stoppool"
 		c.stopKind = kind
+		c.mu.Unlock()
 		c.stopOp = w.s.Start(a.String(), func() (interface{}, error) {
 			switch kind {
 			case "droplink":
@@ -449,8 +540,40 @@ func (w *c17World) do(a c17Action) []qsched.GoroutineInfo {
 		w.ops = append(w.ops, c.stopOp)
 		w.opDsc = append(w.opDsc, a.String())
 		w.nops++
+	case "redial":
+		// time passes until the far side's retry timer has fired and it has dialled again (a stale retry timer
+		// armed before an earlier successful dial may come first)
+		c := w.colls[a.N]
+		c.mu.Lock()
+		before, re := c.dials, c.redials
+		c.mu.Unlock()
+		for i := 0; i < 4; i++ {
+			if vtime.FireDueWhere(c17Long) == 0 {
+				break
+			}
+			w.quiesce()
+			c.mu.Lock()
+			now := c.dials
+			c.mu.Unlock()
+			if now > before {
+				break
+			}
+		}
+		w.quiesce()
+		c.mu.Lock()
+		again := c.redials > re
+		c.mu.Unlock()
+		if again {
+			// the relay is a collector that connects while a broadcast task is current
+			for _, t := range w.tasks {
+				if t.kind == "Q" && !t.removed && w.ls.latestTask != nil && w.ls.latestTask.ID() == t.id {
+					t.expected[a.N] = true
+				}
+			}
+		}
+		w.nops++
 	case "tick":
-		vtime.FireDue()
+		vtime.FireDueWhere(c17Short)
 		w.ticks++
 	}
 	return w.quiesce()
@@ -565,7 +688,7 @@ func (c *c17Ctx) checkMessages(w *c17World, hist []int, op int) bool {
 			}
 			ci := -1
 			for i, col := range w.colls {
-				if col.ID() == m.CollectorID {
+				if col.knows(m.CollectorID) {
 					ci = i
 				}
 			}
@@ -585,6 +708,12 @@ func (c *c17Ctx) checkMessages(w *c17World, hist []int, op int) bool {
 						c.viol("report-modified-or-mistagged", "Q", fmt.Sprintf("report tagged with collector %d carries content produced by another collector or task", ci), hist, op)
 						return false
 					}
+					// a relay that has reconnected is sent the current task again and its collector starts it over (slots
+					// repeat, and a straggler of the cancelled run may land among them): order and completeness are judged
+					// on the sequence delivered under the relay's first id only
+					if col := w.colls[ci]; col.relay && len(col.oldIDs) > 0 && m.CollectorID != col.oldIDs[0] {
+						continue
+					}
 					if q.Slot <= lastSlot[m.CollectorID] && lastSlot[m.CollectorID] != 0 {
 						c.viol("reports-out-of-order", "Q", fmt.Sprintf("collector %d: slot %d after slot %d", ci, q.Slot, lastSlot[m.CollectorID]), hist, op)
 						return false
@@ -597,7 +726,7 @@ func (c *c17Ctx) checkMessages(w *c17World, hist []int, op int) bool {
 					if prev == 0 {
 						prev = uint64(c17NowUnix)/pocSlot - c17ParentAge
 					}
-					if q.Slot != prev+1 && !w.colls[ci].stopped {
+					if q.Slot != prev+1 && !w.colls[ci].down() && w.colls[ci].ID() == m.CollectorID {
 						c.viol("report-lost", "Q", fmt.Sprintf("collector %d: the report for slot %d was not delivered before the one for slot %d", ci, prev+1, q.Slot), hist, op)
 						return false
 					}
@@ -695,7 +824,7 @@ func (c *c17Ctx) terminal(w *c17World, hist []int, op int) {
 				}
 			}
 			col.keeper.mu.Unlock()
-			if n > 1 {
+			if n > 1 && !(t.kind == "Q" && n <= 1+col.redials) { // a relay that reconnects is sent the current broadcast task again
 				c.viol("task-delivered-twice", t.kind, fmt.Sprintf("task %d reached the keeper of collector %d %d times", ti, ci, n), hist, op)
 				return
 			}
@@ -703,7 +832,7 @@ func (c *c17Ctx) terminal(w *c17World, hist []int, op int) {
 				c.viol("targeted-task-reached-other-collector", t.kind, fmt.Sprintf("task %d (for collector %d) reached collector %d", ti, t.target, ci), hist, op)
 				return
 			}
-			if n == 0 && t.expected[ci] && !col.stopped && !t.removed {
+			if n == 0 && t.expected[ci] && !col.down() && !t.removed {
 				c.viol("task-not-delivered", t.kind, fmt.Sprintf("task %d never reached the keeper of connected collector %d", ti, ci), hist, op)
 				return
 			}
@@ -717,7 +846,7 @@ func (c *c17Ctx) terminal(w *c17World, hist []int, op int) {
 						got++
 					}
 				}
-				if got > 1 || (got == 0 && n == 1 && !col.stopped) {
+				if got > 1 || (got == 0 && n == 1 && !col.down() && col.redials == 0) {
 					c.viol("proof-report-count", "P", fmt.Sprintf("the keeper of collector %d answered the proof request %d time(s); its waiter received %d report(s)", ci, n, got), hist, op)
 					return
 				}
@@ -822,7 +951,7 @@ func TestVerifC17(t *testing.T) {
 		budget, ticks  int
 	}
 	topos := []topo{{"T1", "T1", 1, vk.Pick(r, 4, 5), vk.Pick(r, 3, 4)}, {"T3", "T3", 1, vk.Pick(r, 3, 4), vk.Pick(r, 2, 3)},
-		{"T3stalled", "T3", 40, vk.Pick(r, 3, 3), vk.Pick(r, 1, 2)}}
+		{"T3stalled", "T3", 40, vk.Pick(r, 3, 3), vk.Pick(r, 1, 2)}, {"T3r", "T3r", 1, vk.Pick(r, 3, 4), vk.Pick(r, 1, 2)}}
 	if only := os.Getenv("VERIF_C17_TOPO"); only != "" {
 		var f []topo
 		for _, t := range topos {
@@ -895,6 +1024,8 @@ func TestVerifC17(t *testing.T) {
 		r.Set("bounds_"+tp.name, fmt.Sprintf("operation budget %d, timer firings %d, parent block %d slot(s) old", budget, ticks, tp.age))
 	}
 	r.Sample(map[string]interface{}{"schedule": []string{"addQ(0)", "tick(0)", "read(0)", "connect(2)", "tick(0)", "addP(0)", "remove(0)", "stopc(1)"}})
+	r.Set("relay_reconnections_executed", atomic.LoadInt64(&c17Reconnections))
+	r.Set("relay_dials_refused", atomic.LoadInt64(&c17RefusedDials))
 	r.Set("states", states)
 	r.Set("transitions", trans)
 	r.Set("traces_validated_against_impl", trans)
